@@ -280,6 +280,35 @@ def replay_one(prop, path_or_obj, ctx=None):
         return {"sub": sub.name, "case": obj["case"], "kind": kind, "message": msg}
 
 
+def _linecov_start():
+    """audit aid (tools/linecov.py): with VERIF_LINECOV=<dir> every worker records which lines of the library it
+    executed (sys.monitoring, each line reported once); numba-compiled kernels are invisible to it"""
+    if not os.environ.get("VERIF_LINECOV") or not hasattr(sys, "monitoring"):
+        return None
+    root = os.path.realpath(os.path.join(os.environ.get("VERIF_REPO", "/repo"), "corankco")) + os.sep
+    seen = set()
+    mon = sys.monitoring
+
+    def on_line(code, line):
+        fn = code.co_filename
+        if fn.startswith(root):
+            seen.add((fn[len(root):], line))
+        return mon.DISABLE
+    mon.use_tool_id(mon.COVERAGE_ID, "verif-linecov")
+    mon.register_callback(mon.COVERAGE_ID, mon.events.LINE, on_line)
+    mon.set_events(mon.COVERAGE_ID, mon.events.LINE)
+    return seen
+
+
+def _linecov_dump(seen, prop, shard):
+    if seen is None:
+        return
+    d = os.environ["VERIF_LINECOV"]
+    os.makedirs(d, exist_ok=True)
+    with open(os.path.join(d, "cov_%s_%d.json" % (prop, shard)), "w") as f:
+        json.dump(sorted(seen), f)
+
+
 def worker_main(argv):
     prop, tier, seed, shard, nshards, budget_s, out = argv[0], argv[1], int(argv[2]), int(argv[3]), int(argv[4]), \
         float(argv[5]), argv[6]
@@ -287,6 +316,7 @@ def worker_main(argv):
     t0 = time.time()
     result = {"shard": shard, "subs": {}, "failures": [], "regressions_run": 0}
     _HB["file"] = open(out + ".hb", "w")
+    cov = _linecov_start()
     try:
         mod = load_checks(prop)
         subs = mod.subchecks()
@@ -330,6 +360,7 @@ def worker_main(argv):
     except Exception:  # noqa
         pass
     result["wall_s"] = round(time.time() - t0, 2)
+    _linecov_dump(cov, prop, shard)
     tmp = out + ".tmp"
     with open(tmp, "w") as f:
         json.dump(result, f, default=str)
